@@ -530,7 +530,7 @@ pub fn run(ctx: &Ctx) -> HResult<()> {
 	if let Some((case, f)) = pbt_proc(ctx, "ext", ctx.n(2400, 40000), 16) {
 		ctx.report("ext", &f.sig, case, &f.msg);
 	}
-	if let Some((case, f)) = pbt_proc(ctx, "chain", ctx.n(320, 5000), 16) {
+	if let Some((case, f)) = pbt_proc(ctx, "chain", ctx.n(480, 5000), 16) {
 		ctx.report("chain", &f.sig, case, &f.msg);
 	}
 	ev.sample("ext", || serde_json::to_value(sample_one(ctx.derive_seed("s", 0), &ecase())).unwrap());
